@@ -791,3 +791,70 @@ pub fn replay(path: &str, t: &mut Trace, ex: &mut Exec) {
     t.mark_nontrivial();
     ex.reset();
 }
+
+/// C14 rate clause: a deterministic, seeded measurement on the implementation.  Raises a MONITOR
+/// line when, after adding n distinct well-mixed hashes to a filter built for (n, p), the fraction
+/// of never-added hashes reported present exceeds 10 p + 0.01 — an order of magnitude above the
+/// design rate.  Structured families (hashes differing only in high / only in low bits) are
+/// measured and reported but never alarm: double hashing on the two halves of the hash degrades
+/// on them by design, exactly as in the Go original.
+pub fn suite_bloomfp(rng: &mut Rng, _cases: u64, t: &mut Trace) -> String {
+    let mut rows = Vec::new();
+    let mut id = 0;
+    for &n in &[100usize, 1000, 10000] {
+        for &p in &[0.1f64, 0.01, 0.001] {
+            for family in 0..3 {
+                id += 1;
+                t.case(id, "bloomfp");
+                let mut bl = VBloom::new(n, p);
+                let base = rng.next();
+                let gen = |i: u64, r: &mut Rng| -> u64 {
+                    match family {
+                        0 => r.next(),
+                        1 => base ^ (i << 44),
+                        _ => base ^ i,
+                    }
+                };
+                let mut added = std::collections::HashSet::new();
+                let mut i = 0u64;
+                while added.len() < n {
+                    let h = gen(i, rng);
+                    i += 1;
+                    if added.insert(h) {
+                        bl.add(h);
+                    }
+                }
+                let mut missing = 0;
+                for h in &added {
+                    if !bl.contains(*h) {
+                        missing += 1;
+                    }
+                }
+                let probes = 20000u64;
+                let mut fp = 0u64;
+                let mut tried = 0u64;
+                while tried < probes {
+                    let h = rng.next();
+                    if added.contains(&h) {
+                        continue;
+                    }
+                    tried += 1;
+                    if bl.contains(h) {
+                        fp += 1;
+                    }
+                }
+                let rate = fp as f64 / probes as f64;
+                t.step(&format!("measure n={} p={} family={} fp_rate={:.5} false_negatives={}", n, p, family, rate, missing));
+                t.mark_nontrivial();
+                if missing > 0 {
+                    println!("MONITOR property=C14 case={} msg=false-negative n={} p={} family={} missing={}", id, n, p, family, missing);
+                }
+                if family == 0 && rate > 10.0 * p + 0.01 {
+                    println!("MONITOR property=C14 case={} msg=false-positive-rate-far-above-target n={} p={} measured={:.5}", id, n, p, rate);
+                }
+                rows.push(format!("{{\"n\":{},\"p\":{},\"family\":{},\"fp_rate\":{:.5},\"false_negatives\":{}}}", n, p, family, rate, missing));
+            }
+        }
+    }
+    format!(",\"model\":false,\"fp_measurements\":[{}]", rows.join(","))
+}
